@@ -305,19 +305,47 @@ def _s_size(ctx, S):
     if ups and bw:
         ctx.check(g.must_precede(bw, ups, exc=False) is None, "size/advanced-by-written-length", ctx.construct(q, "size += after write"),
                   "size is advanced before the write (and the rotation decision inside it): the file is rotated one write early, shorter than rotateLength")
-    f = ctx.func(LOG, "LogFile._openFile")
-    g = ctx.cfg(f)
-    q = QL + "._openFile"
-    base = [n for n, c in node_calls(g, lambda c: call_name(c) == "BaseLogFile._openFile")]
-    sets = g.ids(lambda n: n.kind == "stmt" and isinstance(n.ast, ast.Assign) and any(is_self_attr(t, "size") for t in n.ast.targets))
-    ok = len(sets) == 1 and src(g.node(sets[0]).ast.value) == "self._file.tell()" and bool(base) and g.must_precede(base, sets, exc=False) is None and \
-        g.must_pass([g.entry], sets, exc=False) is None
-    ctx.check(ok, "size/reread-on-open", q, "size is not re-read from tell() after every (re)open: after a rotation the new file inherits the old size and is rotated at once")
+    # size is resynchronised with the file on EVERY (re)open: either LogFile hooks _openFile itself, or every method that reopens does it
+    logcls = ctx.cls(LOG, "LogFile")
+    basecls = ctx.cls(LOG, "BaseLogFile")
+    own = {m.name: m for m in logcls.body if isinstance(m, ast.FunctionDef)}
+    inherited = {m.name: m for m in basecls.body if isinstance(m, ast.FunctionDef)}
+
+    def resync_after(fn, qual, opener_pred):
+        g_ = ctx.cfg(fn)
+        opens_ = [n for n, c in node_calls(g_, opener_pred)]
+        renamed = [n for n, c in node_calls(g_, lambda c: call_name(c) in ("os.rename", "os.replace") and c.args and src(c.args[0]) == "self.path")]
+        sets_ = g_.ids(lambda n: n.kind == "stmt" and isinstance(n.ast, ast.Assign) and any(is_self_attr(t, "size") for t in n.ast.targets) and
+                       (src(n.ast.value) == "self._file.tell()" or (src(n.ast.value) == "0" and any(g_.dominates(r, n.id) for r in renamed))))
+        for o in opens_:
+            w = g_.must_pass([o], sets_, exc=False)
+            ctx.check(w is None, "size/reread-on-open", ctx.construct(qual, g_.node(o).ast),
+                      "the log file is (re)opened and size is not re-read from the file actually opened: size keeps the byte count of the previous file, so the next "
+                      "writes rotate a file that is shorter than rotateLength", witness=g_.describe(w))
+        return bool(opens_)
+
+    if "_openFile" in own:
+        ctx.functions.add(f"{LOG}:LogFile._openFile")
+        resync_after(own["_openFile"], QL + "._openFile", lambda c: call_name(c) == "BaseLogFile._openFile")
+        g = ctx.cfg(own["_openFile"])
+        ctx.check(bool(node_calls(g, lambda c: call_name(c) == "BaseLogFile._openFile")), "size/reread-on-open", QL + "._openFile", "LogFile._openFile does not open the file")
+    else:
+        openers = {n for n, m in list(inherited.items()) + list(own.items()) if any(isinstance(c, ast.Call) and call_name(c) == "self._openFile" for c in ast.walk(m))}
+        ctx.check(bool(openers), "size/reread-on-open", QL, "nothing opens the log file")
+        for name in sorted(openers):
+            if name in own:
+                resync_after(own[name], f"{QL}.{name}", lambda c, name=name: call_name(c) in ("self._openFile", f"BaseLogFile.{name}"))
+            else:
+                ctx.violation("size/reread-on-open", f"{QL}.{name} (inherited from BaseLogFile)",
+                              f"{name}() reopens the log file through BaseLogFile.{name} and LogFile neither hooks _openFile nor overrides {name}: size is not "
+                              f"resynchronised with the file actually opened (after an external move + reopen() a file shorter than rotateLength is rotated)")
     # who else writes size
     cls = ctx.cls(LOG, "LogFile")
     for m in [x for x in cls.body if isinstance(x, ast.FunctionDef)]:
         for n in ast.walk(m):
             if isinstance(n, (ast.Assign, ast.AugAssign)) and any(is_self_attr(t, "size") for t in (n.targets if isinstance(n, ast.Assign) else [n.target])):
+                if isinstance(n, ast.Assign) and (src(n.value) == "self._file.tell()" or (src(n.value) == "0" and m.name == "rotate")):
+                    continue        # a resynchronisation with the file (judged by size/reread-on-open)
                 ctx.check(m.name in ("_openFile", "write"), "size/who-may-write", ctx.construct(f"{QL}.{m.name}", n), "size is modified outside _openFile/write")
 
 
@@ -350,7 +378,9 @@ def _s_open(ctx, S):
 
 
 def _s_body(ctx, S):
-    body_always_entered(ctx, LOG, ["LogFile.listLogs", "LogFile.rotate", "LogFile.shouldRotate", "LogFile.write", "LogFile._openFile", "BaseLogFile.write", "BaseLogFile._openFile"],
+    present = [q_ for q_ in ["LogFile.listLogs", "LogFile.rotate", "LogFile.shouldRotate", "LogFile.write", "LogFile._openFile", "BaseLogFile.write", "BaseLogFile._openFile",
+                             "BaseLogFile.reopen"] if ctx.mod(LOG).find(q_) is not None]
+    body_always_entered(ctx, LOG, present,
                         "anchor/body-entered-on-every-call", "twisted.python.logfile",
                         "listLogs()/shouldRotate() must look at the directory / the size on every call: a cached list of rotated files makes rotate() rename over "
                         "files it does not know about")
@@ -381,6 +411,11 @@ MUTANTS = [
     Mutant("size-not-reset", LOG, "        BaseLogFile._openFile(self)\n        self.size = self._file.tell()\n\n    def shouldRotate(self):\n        \"\"\"\n        Rotate when the log file size",
            "        BaseLogFile._openFile(self)\n        if not hasattr(self, \"size\"):\n            self.size = self._file.tell()\n\n    def shouldRotate(self):\n        \"\"\"\n        Rotate when the log file size",
            expect_rule="size/reread-on-open"),
+    Mutant("size-synced-only-at-construction-and-rotation", LOG,
+           "        self.maxRotatedFiles = maxRotatedFiles\n\n    def _openFile(self):\n        BaseLogFile._openFile(self)\n        self.size = self._file.tell()\n",
+           "        self.maxRotatedFiles = maxRotatedFiles\n        self.size = self._file.tell()\n",
+           more=[(LOG, "        os.rename(self.path, \"%s.1\" % self.path)\n        self._openFile()\n", "        os.rename(self.path, \"%s.1\" % self.path)\n        self._openFile()\n        self.size = self._file.tell()\n")],
+           expect_rule="size/reread-on-open"),
     Mutant("remove-without-limit", LOG, "            if self.maxRotatedFiles is not None and i >= self.maxRotatedFiles:", "            if self.maxRotatedFiles is None or i >= self.maxRotatedFiles:",
            expect_rule="retention/"),
     Mutant("current-to-wrong-slot", LOG, "        os.rename(self.path, \"%s.1\" % self.path)", "        os.rename(self.path, \"%s.0\" % self.path)", expect_rule="sequence/current-becomes-1"),
@@ -406,6 +441,10 @@ SILENT = [
     Silent("shift-names-in-locals", LOG, "                os.rename(\"%s.%d\" % (self.path, i), \"%s.%d\" % (self.path, i + 1))",
            "                old = \"%s.%d\" % (self.path, i)\n                new = \"%s.%d\" % (self.path, i + 1)\n                os.rename(old, new)"),
     Silent("glob-pattern-escaped", LOG, "        for name in glob.glob(\"%s.*\" % self.path):", "        for name in glob.glob(\"%s.*\" % glob.escape(self.path)):"),
+    Silent("size-resynced-by-each-reopener", LOG,
+           "        self.maxRotatedFiles = maxRotatedFiles\n\n    def _openFile(self):\n        BaseLogFile._openFile(self)\n        self.size = self._file.tell()\n",
+           "        self.maxRotatedFiles = maxRotatedFiles\n        self.size = self._file.tell()\n\n    def reopen(self):\n        BaseLogFile.reopen(self)\n        self.size = self._file.tell()\n",
+           more=[(LOG, "        os.rename(self.path, \"%s.1\" % self.path)\n        self._openFile()\n", "        os.rename(self.path, \"%s.1\" % self.path)\n        self._openFile()\n        self.size = 0\n")]),
     Silent("branches-swapped", LOG, "            if self.maxRotatedFiles is not None and i >= self.maxRotatedFiles:\n                os.remove(\"%s.%d\" % (self.path, i))\n            else:\n                os.rename(\"%s.%d\" % (self.path, i), \"%s.%d\" % (self.path, i + 1))",
            "            if self.maxRotatedFiles is None or i < self.maxRotatedFiles:\n                os.rename(\"%s.%d\" % (self.path, i), \"%s.%d\" % (self.path, i + 1))\n            else:\n                os.remove(\"%s.%d\" % (self.path, i))"),
 ]
